@@ -27,6 +27,8 @@ func init() {
 			Trusted:     commonTrusted,
 		},
 		Mutants: []Mutant{
+			{Name: "new per-call scratch state on the runtime that is never put back (agent seed C14/2 seen from C07)", File: "eval.go", Old: "\targValues := make([]reflect.Value, numArgs)\n", New: "\tif cap(st.argBuf) < numArgs {\n\t\tst.argBuf = make([]reflect.Value, numArgs, numArgs+4)\n\t}\n\targValues := st.argBuf[:numArgs]\n", More: []Edit{{File: "eval.go", Old: "\tcontext reflect.Value\n}", New: "\tcontext reflect.Value\n\targBuf  []reflect.Value\n}"}}, Rule: "C07.ctx"},
+			{Name: "equivalent: a nesting-depth counter that is incremented and decremented around list execution", File: "eval.go", Old: "\t\t\tif isTrue(st.evalPrimaryExpressionGroup(node.Expression)) {\n\t\t\t\tifReturn = st.executeList(node.List)\n\t\t\t}", New: "\t\t\tif isTrue(st.evalPrimaryExpressionGroup(node.Expression)) {\n\t\t\t\tst.depth++\n\t\t\t\tifReturn = st.executeList(node.List)\n\t\t\t\tst.depth--\n\t\t\t}", More: []Edit{{File: "eval.go", Old: "\tcontext reflect.Value\n}", New: "\tcontext reflect.Value\n\tdepth   int\n}"}, {File: "exec.go", Old: "\tst.Writer = w\n", New: "\tst.Writer = w\n\tst.depth = 0\n"}}, Rule: "-"},
 			{Name: "content closure restores '.' from a save taken by the enclosing call (agent seed C07/2, reduced)", File: "eval.go", Old: "\t\t\tif expression != nil {\n\t\t\t\tcontext := st.context\n\t\t\t\tst.context = st.evalPrimaryExpressionGroup(expression)\n\t\t\t\tst.executeList(content)\n\t\t\t\tst.context = context\n\t\t\t} else {", New: "\t\t\tif expression != nil {\n\t\t\t\tst.context = st.evalPrimaryExpressionGroup(expression)\n\t\t\t\tst.executeList(content)\n\t\t\t\tst.context = mycontext\n\t\t\t} else {",
 				More: []Edit{{File: "eval.go", Old: "\tmycontent := st.content\n\tif content != nil {", New: "\tmycontent, mycontext := st.content, st.context\n\tif content != nil {"}}, Rule: "C07.ctx"},
 			{Name: "if with := forgets to pop its scope", File: "eval.go", Old: "\t\t\tif isLet {\n\t\t\t\tst.releaseScope()\n\t\t\t}\n\t\tcase NodeRange:", New: "\t\t\t_ = isLet\n\t\tcase NodeRange:", Rule: "C07.scope"},
@@ -50,6 +52,7 @@ func init() {
 
 // pairFns selects the functions of package jet, reachable from Execute, that take part in the paired operations.
 func pairFns(p *an.Prog) (fns []*an.Fn, poolFns map[*an.Fn]bool) {
+	pairedFields := pairedFieldsFor(p)
 	eval := p.Eval()
 	poolFns = map[*an.Fn]bool{}
 	for _, f := range an.SortedFns(eval) {
